@@ -1,0 +1,16 @@
+//go:build verif
+// +build verif
+
+package telegram
+
+import "github.com/xelaj/mtproto/telegram/internal/srp"
+
+// VerifSRP is a verification hook (build tag verif): the internal SRP computation with the client's
+// random exponent supplied by the caller. ga/m1 are nil for the empty password.
+func VerifSRP(password string, srpB, salt1, salt2 []byte, g int32, p, random []byte) (ga, m1 []byte, err error) {
+	res, err := srp.VerifGetInputCheckPassword(password, srpB, &srp.ModPow{Salt1: salt1, Salt2: salt2, G: g, P: p}, random)
+	if err != nil || res == nil {
+		return nil, nil, err
+	}
+	return res.GA, res.M1, nil
+}
